@@ -360,3 +360,8 @@ def finalize(ctx):
         ctx.inconc("no graph key was ever computed twice")
     if ctx.counters.get("dedup_attrs_compared", 0) == 0:
         ctx.inconc("no de-duplication hit was judged")
+
+
+RULE += (
+    ' Source edits: leaves are sometimes read-only views of a writable base; after the first build the bases are edited in place, the family is rebuilt and recomputed: the same names/keys must still denote the first values.'
+)
